@@ -511,7 +511,12 @@ class HostConnection(object):
             conn = self._session.cluster.connection_factory(self.host.endpoint, on_orphaned_stream_released=self.on_orphaned_stream_released)
             if self._keyspace:
                 conn.set_keyspace_blocking(self._keyspace)
-            self._connection = conn
+            with self._lock:
+                if self.is_shutdown:
+                    # the pool was shut down while we were connecting
+                    conn.close()
+                    return
+                self._connection = conn
         except Exception:
             log.warning("Failed reconnecting %s. Retrying." % (self.host.endpoint,))
             self._session.submit(self._replace, connection)
@@ -519,7 +524,7 @@ class HostConnection(object):
             with connection.lock:
                 with self._lock:
                     if connection.orphaned_threshold_reached:
-                        if connection.in_flight == len(connection.orphaned_request_ids):
+                        if connection.in_flight == len(connection.orphaned_request_ids) or self.is_shutdown:
                             connection.close()
                         else:
                             self._trash.add(connection)
